@@ -291,11 +291,29 @@ class CoreDriver:
         self.snap()
         return True
 
+    def _any_held(self):
+        return any(not f.done() for f in self.held.values()) or any(not f.done() for f in self.lheld.values())
+
     def run(self, schedule):
+        """Steps are executed in order.  ["ongate", tail, mode] arms a reaction: as soon as a gate
+        holds some task, `tail` is executed; mode "stop" ends the schedule there, "continue" resumes."""
         done = []
+        ongate = None
         for st in schedule:
+            if st[0] == "ongate":
+                ongate = st
+                done.append(st)
+                continue
             if self.step(st):
                 done.append(st)
+            if ongate is not None and self._any_held():
+                tail, mode = ongate[1], ongate[2]
+                ongate = None
+                for t in tail:
+                    if self.step(t):
+                        done.append(t)
+                if mode == "stop":
+                    break
         return done
 
     def finish(self):
@@ -352,7 +370,7 @@ class CoreDriver:
         dsock = [c.session for c in net.conns if c.kind == "data" and not (c.srv.closing or c.srv.closed)]
         files = [h.session for h in w.ctl.open_handles()]
         lsn = [[l.owner, l.port] for l in net.open_listeners() if l.owner]
-        gated = sorted(s for s, f in self.held.items() if not f.done())
+        gated = sorted({s for s, f in self.held.items() if not f.done()} | {s for s, f in self.lheld.items() if not f.done()})
         net.log("Snap", used=used, uused=uused, pool=pool, table=sorted(table), dsock=sorted(dsock),
                 files=sorted(files), lsn=sorted(lsn), sess=sess, gated=gated, hastree=True, tree=w.snapshot(),
                 ntasks=len(self.loop.all_tasks()))
